@@ -14,7 +14,8 @@
 (* Variants that are expected to be rejected: "hoist" (record created once *)
 (* outside the loop), "nuclelec" (nucl_model looked up among the           *)
 (* electronic models - what pmutt/io/excel.py:set_nucl_model does),        *)
-(* "presetover" (a preset overwrites assigned keys).                       *)
+(* "presetover" (a preset overwrites assigned keys), "hoistflag" (the      *)
+(* flag vib_set_by_outcar is not reset per row).                           *)
 (***************************************************************************)
 EXTENDS ExcelRecords
 
@@ -24,12 +25,14 @@ CONSTANTS Groups,          \* the sheets of a configuration come in groups (a la
           Variant          \* "code" | "hoist" (record created once, outside the loop)
                            \* | "nuclelec" (nucl_model looked up among the electronic models)
                            \* | "presetover" (a preset overwrites assigned keys)
+                           \* | "hoistflag" (vib_set_by_outcar initialised once, outside the loop)
 \* grp: the group the sheet is taken from; sheet: the worksheet being read (fixed by Open);
 \* cl / im: the documented class and the class the substring chain gives to each column (fixed
 \* by Open); ri, ci: loop counters; rec: the loop-carried record under construction
 \* (thermo_data); out: the list returned; err: an exception escaped
-VARIABLES grp, sheet, cl, im, pc, ri, ci, rec, out, err
-vars == <<grp, sheet, cl, im, pc, ri, ci, rec, out, err>>
+\* vflag: the loop-carried flag vib_set_by_outcar (the row's vib_wavenumbers came from an OUTCAR)
+VARIABLES grp, sheet, cl, im, pc, ri, ci, rec, vflag, out, err
+vars == <<grp, sheet, cl, im, pc, ri, ci, rec, vflag, out, err>>
 
 NRows == Len(sheet.rows)
 NCols == Len(sheet.headers)
@@ -44,7 +47,9 @@ LookupTable(key) == IF Variant = "nuclelec" /\ key = T_nucl_model THEN ModelTabl
                     ELSE ModelTable(key)
 \* does the dispatch of this cell raise?
 Raises(rc, cls, v) ==
-   \/ cls.cls \in {"raise", "atoms", "outcar", "outside"}
+   \/ cls.cls \in {"raise", "outside"}
+   \/ cls.cls = "outcar" /\ (v.t # "s" \/ ~Has(sheet.opt.files, v.v))            \* FileNotFoundError
+   \/ cls.cls = "atoms" /\ (v.t # "s" \/ AtomsStem(v.v) \notin MoleculeNames)
    \/ cls.cls = "statmech" /\ (v.t # "s" \/ Lower(v.v) \notin PresetNames)
    \/ cls.cls = "mode" /\ (v.t # "s" \/ ~(Has(LookupTable(cls.a), v.v) \/ Lower(v.v) = T_emptymode))
    \/ cls.cls \in {"alow", "ahigh"} /\ (cls.b[1] > 6 \/ v.t # "n")
@@ -57,7 +62,9 @@ Dispatch(rc, cls, v) ==
      [] cls.cls = "ordinary" -> Put(rc, cls.a, v)
      [] cls.cls = "element" -> DictSet(rc, T_elements, cls.a, v)
      [] cls.cls = "formula" -> Put(rc, T_elements, DictV(FormulaPairs(v.v)))
-     [] cls.cls = "vib" -> AppendTo(rc, T_vib_wavenumbers, v)
+     [] cls.cls = "vib" -> IF vflag THEN rc ELSE AppendTo(rc, T_vib_wavenumbers, v)
+     [] cls.cls = "outcar" -> Put(rc, T_vib_wavenumbers, ListV(OutcarList(sheet.opt, v.v)))
+     [] cls.cls = "atoms" -> Put(rc, T_atoms, AtomsV(AtomsStem(v.v)))
      [] cls.cls = "rot" -> AppendTo(rc, T_rot_temperatures, v)
      [] cls.cls = "list" -> AppendTo(rc, cls.a, v)
      [] cls.cls = "dict" -> DictSet(rc, cls.a, cls.b, v)
@@ -74,19 +81,20 @@ Dispatch(rc, cls, v) ==
              ELSE base \cup {p \in ps : ~Has(base, p[1])}
      [] OTHER -> rc
 
-NoSheet == [headers |-> <<>>, rows |-> <<>>]
+NoSheet == [headers |-> <<>>, rows |-> <<>>, opt |-> DefaultOpt]
 Init == /\ grp \in Groups
         /\ sheet = NoSheet /\ cl = <<>> /\ im = <<>>
-        /\ pc = "open" /\ ri = 1 /\ ci = 0 /\ rec = {} /\ out = <<>> /\ err = FALSE
+        /\ pc = "open" /\ ri = 1 /\ ci = 0 /\ rec = {} /\ vflag = FALSE /\ out = <<>> /\ err = FALSE
 Open == /\ pc = "open"                                   \* pandas.read_excel: the data frame
         /\ \E s \in GroupSheets(grp) :
               /\ sheet' = s
-              /\ cl' = DocClasses(s.headers)
-              /\ im' = ImplClasses(s.headers)
-        /\ pc' = "begin"
-        /\ UNCHANGED <<grp, ri, ci, rec, out, err>>
+              /\ cl' = DocClassesD(s.headers, s.opt.delim)
+              /\ im' = ImplClassesD(s.headers, s.opt.delim)
+              /\ pc' = IF Len(s.rows) = 0 THEN "done" ELSE "begin"
+        /\ UNCHANGED <<grp, ri, ci, rec, vflag, out, err>>
 BeginRow == /\ pc = "begin"
             /\ rec' = IF Variant = "hoist" THEN rec ELSE {}
+            /\ vflag' = IF Variant = "hoistflag" THEN vflag ELSE FALSE
             /\ ci' = 1 /\ pc' = "cell"
             /\ UNCHANGED <<grp, sheet, cl, im, ri, out, err>>
 Cell == /\ pc = "cell" /\ ci <= NCols
@@ -95,34 +103,36 @@ Cell == /\ pc = "cell" /\ ci <= NCols
            IN IF IsEmpty(cell) THEN rec' = rec /\ err' = err /\ pc' = pc
               ELSE IF Raises(rec, im[ci], v) THEN rec' = rec /\ err' = TRUE /\ pc' = "done"
               ELSE rec' = Dispatch(rec, im[ci], v) /\ err' = err /\ pc' = pc
+        /\ vflag' = (vflag \/ (~IsEmpty(sheet.rows[ri][ci]) /\ im[ci].cls = "outcar"
+                                /\ ~Raises(rec, im[ci], Scalar(sheet.rows[ri][ci]))))
         /\ ci' = ci + 1
         /\ UNCHANGED <<grp, sheet, cl, im, ri, out>>
 EndRow == /\ pc = "cell" /\ ci > NCols
           /\ out' = Append(out, rec)
           /\ ri' = ri + 1
           /\ pc' = IF ri = NRows THEN "done" ELSE "begin"
-          /\ UNCHANGED <<grp, sheet, cl, im, ci, rec, err>>
+          /\ UNCHANGED <<grp, sheet, cl, im, ci, rec, vflag, err>>
 Next == Open \/ BeginRow \/ Cell \/ EndRow
 Spec == Init /\ [][Next]_vars
 
 \* ------------------------------------------------------------------ properties (D)
 Done == pc = "done"
-First == pc = "begin" /\ ri = 1                 \* sheet-level properties are evaluated once
+First == (pc = "begin" /\ ri = 1) \/ (pc = "done" /\ NRows = 0 /\ NCols > 0)   \* sheet-level properties: once
 AfterRow == pc \in {"begin", "done"}            \* `out` only changes in EndRow
 NoRaise == ~err
 OneRecordPerRow == Done /\ ~err => Len(out) = NRows
 \* the k-th record is the record of row k (order), and of row k alone (ExpectedRow sees one row)
-RowOrder == AfterRow => \A k \in 1..Len(out) : out[k] = ExpectedRow(cl, sheet.rows[k])
+RowOrder == AfterRow => \A k \in 1..Len(out) : out[k] = ExpectedRowO(cl, sheet.rows[k], sheet.opt)
 Refines == Done /\ ~err => out = Expected(sheet)
 \* the loop-carried state is empty whenever a row begins ...
-CarriedEmpty == pc = "cell" /\ ci = 1 => rec = {}
+CarriedEmpty == pc = "cell" /\ ci = 1 => rec = {} /\ ~vflag
 \* ... so nothing of another row can be in a record
 NoLeak == AfterRow => \A k \in 1..Len(out) :
-                         RecAtoms(out[k]) \subseteq RowAtoms(sheet.rows[k]) \cup Derived(cl, sheet.rows[k])
+                         RecAtoms(out[k]) \subseteq RowAtoms(sheet.rows[k]) \cup DerivedO(cl, sheet.rows[k], sheet.opt)
 NoEmptyCells == AfterRow => \A k \in 1..Len(out) : \A a \in RecAtoms(out[k]) : a.t # "e"
 KeysFunctional == Functional(rec)
-HeaderTexts == {Trim(sheet.headers[k]) : k \in 1..Len(sheet.headers)}
-DispatchDisjoint == First => \A t \in HeaderTexts : Cardinality(Rules(t)) = 1
+HeaderTexts == {Strip(sheet.headers[k]) : k \in 1..Len(sheet.headers)}
+DispatchDisjoint == First => \A t \in HeaderTexts : Cardinality(RulesD(t, sheet.opt.delim)) = 1
 ChainAgrees == First => im = cl
 InQuantifier == First => SheetInQuantifier(sheet)
 =============================================================================
